@@ -8,6 +8,9 @@ d  point-wise maps synodic <-> local are exact inverses (collinear, triangular)
 
 a (added)  only _PipelineService.register_conversion writes the conversion table (who-may-write); memoised conversions are keyed by form and context
 c (added)  _substitute_real/_complex return the substituted polynomial unchanged (generic complex coefficients)
+
+c (round 3)  the triangular (C, C_inv) pair: C_inv C = I on an exact rational symplectic instance
+b-source (round 3)  C09.d's 'input untouched' obligation re-filed: a conversion never writes into its source polynomial
 """
 from __future__ import annotations
 
